@@ -85,3 +85,56 @@ for _name, _post in (("union_update", _UNION), ("update", _UNION), ("intersectio
         note=f"Rdataset.{_name} (two distinct rdatasets): the TTL becomes the minimum (an empty set takes the other's), the members are "
              "the set-theoretic result",
     )
+
+
+# ----------------------------------------------------------------------------- records: equality and hash go through the canonical form (C07)
+# A record is abstracted by its class, type, whether it holds a relative name, and its DNSSEC canonical form with and
+# without an origin (to_digestable is the per-type encoder's business: C02 / C15).
+RDATA = T.obj("dns.rdata.Rdata", raw=True, rdclass=T.u16, rdtype=T.u16, has_relative=T.bool, dig_root=T.bytes, dig_none=T.bytes,
+              plain_wire=T.bytes, inv="self.has_relative or self.dig_none == self.dig_root")
+REG.contract(
+    "dns.rdata.Rdata.to_wire#record",
+    target="dns.rdata.Rdata.to_wire",
+    params={"self": RDATA}, raises=[("dns.name.NeedAbsoluteNameOrOrigin", "True", "may")], returns=T.bytes,
+    ensures=["result == self.plain_wire"], status="assumed", props=["C07"],
+    when=lambda b: "plain_wire" in getattr(b.get("self"), "fields", {}),
+    note="ASSUMED: the non-canonical wire form is some other fixed octet string (letter case of names kept): nothing relates "
+         "it to the canonical form",
+)
+REG.contract(
+    "dns.rdata.Rdata.to_digestable",
+    params={"self": RDATA, "origin": T.opt(T.obj("dns.name.Name"))},
+    raises=[("dns.name.NeedAbsoluteNameOrOrigin", "(origin is None) and self.has_relative")],
+    returns=T.bytes,
+    ensures=["result == (self.dig_none if origin is None else self.dig_root)"],
+    status="assumed", props=["C07"], when=lambda b: "dig_root" in getattr(b.get("self"), "fields", {}),
+    note="ASSUMED: the canonical form of an immutable record is a fixed octet string per origin choice; without an origin "
+         "it exists exactly when the record holds no relative name, and then does not depend on the origin",
+)
+_EQ_SPEC = ("(self.rdclass == other.rdclass and self.rdtype == other.rdtype and self.has_relative == other.has_relative "
+            "and self.dig_root == other.dig_root)")
+REG.contract(
+    "dns.rdata.Rdata.__eq__",
+    params={"self": RDATA, "other": RDATA},
+    raises=[], returns=T.bool, when=lambda b: "dig_root" in getattr(b.get("self"), "fields", {}),
+    ensures=[f"result == {_EQ_SPEC}"],
+    props=["C07"],
+    note="records are equal iff class, type, relativity and canonical form agree",
+)
+REG.contract(
+    "dns.rdata.Rdata.__hash__",
+    params={"self": RDATA},
+    raises=[], returns=T.int, when=lambda b: "dig_root" in getattr(b.get("self"), "fields", {}),
+    ensures=["result == hash(self.dig_root)"],
+    props=["C07"],
+    note="the hash is taken over the canonical form (relative names completed with the root), the same octets __eq__ compares",
+)
+REG.lemma(
+    "rdata_equal_implies_equal_hash",
+    params={"a": RDATA, "b": RDATA},
+    uses=[("dns.rdata.Rdata.__eq__", {"self": "a", "other": "b"}, "e"),
+          ("dns.rdata.Rdata.__hash__", {"self": "a"}, "ha"), ("dns.rdata.Rdata.__hash__", {"self": "b"}, "hb")],
+    goals=["(not e) or ha == hb"],
+    props=["C07"],
+    note="equal records hash equally (over the two contracts)",
+)
